@@ -15,6 +15,16 @@ CHECKS = {
    note="Trusted: the cooperative scheduler and instrumenter (verifsim), testing/synctest quiescence detection, the reference filter predicate; preemption only at statement boundaries of the instrumented packages.",
    technique="deterministic simulation: seeded cooperative scheduler + real-time history oracle", design="3/C07"),
 }
+CACHE_NOTE = "Trusted: reference filter predicate, address function and retention relation in /verif/sim/ref and cache_model.go (written from NIP-01/NIP-09 and the statements); the retained set is read through the store's own match-everything query, as the property defines it."
+CHECKS["C03"] = dict(engine="cache", category="exploration",
+   text="Seeded insertion histories (all event classes, deletion requests, capacity pressure, dump+restore as restart fault) against the real EventCache/CacheHandler; after every insertion 1-3 random filter lists are answered by the store and judged by a specification checker that accepts exactly the per-filter newest-`limit` selections (ties either way). Sampling, not proof.",
+   note=CACHE_NOTE, technique="deterministic simulation: seeded operation+fault sequences against a reference answer checker", design="3/C03")
+CHECKS["C04"] = dict(engine="cache", category="exploration",
+   text="Same runs as C03; every insertion is checked as a step of a refinement: the observed (listing before, offered event, reported flag, listing after) must be a transition the retention specification allows (capacity, one version per address, newest wins, justified removals only, ephemeral never served). Sampling, not proof.",
+   note=CACHE_NOTE, technique="deterministic simulation: step-by-step refinement against an executable retention relation", design="3/C04")
+CHECKS["C05"] = dict(engine="cache", category="exploration",
+   text="Same runs, generator biased to deletion traffic (requests before/after targets, deleting deletions, other authors' ids and addresses, 3-element tags, evicted requests); every removal and refusal is attributed to a cause and must involve only the author's own events or capacity eviction. Sampling, not proof.",
+   note=CACHE_NOTE, technique="deterministic simulation: refinement with cause attribution per author", design="3/C05")
 ALL = ["C%02d" % i for i in range(1, 21)]
 PENDING = "check not built yet in this revision of /verif (planned: DESIGN.md section 3); not claimed"
 m = {
@@ -29,6 +39,7 @@ m = {
  },
  "engines": [
    {"name": "router", "path": "sim/props/c07_router.go", "serves_properties": ["C07"], "kind_free_text": "deterministic simulation, statement-level cooperative scheduling, history oracle"},
+   {"name": "cache", "path": "sim/props/cache_engine.go", "serves_properties": ["C03", "C04", "C05"], "kind_free_text": "seeded operation and restart-fault sequences against an executable specification (relation)"},
  ],
  "checks": [],
  "not_applicable": [],
